@@ -182,32 +182,32 @@ Print Assumptions C09_inorder_client.
 (* ---------------------------------------------------------------- layer 3: protocol *)
 
 
-(* Concurrent uploads on one session and resource, told apart by Request-Tag: the outcomes
+(* Concurrent uploads on one session, told apart by (resource, Request-Tag): the outcomes
    seen by one transfer are exactly those of its own requests run alone (the lg_srcv list and
    its lookup never let another transfer's blocks in) ... *)
-Theorem C09_proto_projection : forall junk maxszx l tab t, blk_tab_uniq tab ->
-  map snd (filter (fun p => blk_rtag_match t (fst p)) (blk_srv_recv_run junk maxszx tab l)) =
+Theorem C09_proto_projection : forall junk maxszx l tab (t : blk_key), blk_tab_uniq tab ->
+  map snd (filter (fun p => blk_key_match t (fst p)) (blk_srv_recv_run junk maxszx tab l)) =
   blk_run (blk_srv_step junk maxszx) (blk_tab_find tab t)
-          (map rq_arr (filter (fun r => blk_rtag_match t (rq_rtag r)) l)).
+          (map rq_arr (filter (fun r => blk_key_match t (rq_key r)) l)).
 Proof. exact blk_srv_recv_projection. Qed.
 Print Assumptions C09_proto_projection.
 
 (* ... hence, for every interleaving, loss, duplication and delay of the requests of any
    number of transfers: every body delivered for Request-Tag t is the body of transfer t, and
    it is delivered no more often than any of its blocks arrived *)
-Theorem C09_proto_safety_block1 : forall (bodies : Z -> bytes) (sizes : Z -> option Z) u junk maxszx l,
+Theorem C09_proto_safety_block1 : forall (bodies : Z -> bytes) (sizes : Z -> option Z) u junk maxszx res l,
   0 <= u ->
-  Forall (fun r => exists t s k, rq_rtag r = Some t /\
+  Forall (fun r => exists t s k, rq_rtag r = Some t /\ rq_res r = res /\
                     u <= s /\ 0 <= k < blk_nblocks (bodies t) s /\
                     rq_arr r = blk_arr_of (bodies t) s (sizes t) k /\
                     blk_srv_init_szx maxszx (rq_arr r) = u) l ->
   forall t, 0 < len (bodies t) -> sizes t = None \/ sizes t = Some (len (bodies t)) ->
-  let outs := map snd (filter (fun p => blk_rtag_match (Some t) (fst p))
+  let outs := map snd (filter (fun p => blk_key_match (res, Some t) (fst p))
                          (blk_srv_recv_run junk maxszx [] l)) in
   Forall (fun o => match o with BoDeliver d => d = bodies t | BoReject => False | _ => True end) outs /\
   forall j, 0 <= j < blk_nblocks (bodies t) u ->
     blk_count_deliveries outs <=
-    blk_count_cover u j (map rq_arr (filter (fun r => blk_rtag_match (Some t) (rq_rtag r)) l)).
+    blk_count_cover u j (map rq_arr (filter (fun r => blk_key_match (res, Some t) (rq_key r)) l)).
 Proof. exact blk_srv_no_mix. Qed.
 Print Assumptions C09_proto_safety_block1.
 
@@ -215,8 +215,8 @@ Print Assumptions C09_proto_safety_block1.
 Theorem C09_proto_mix_without_rtag_refuted :
   let b1 := map (fun i => Z.of_nat i) (seq 0 40) in
   let b2 := map (fun i => 100 + Z.of_nat i) (seq 0 40) in
-  let rq b k := {| rq_rtag := None; rq_arr := blk_arr_of b 0 (Some 40) k |} in
-  exists d, In (None, BoDeliver d)
+  let rq b k := {| rq_res := 1; rq_rtag := None; rq_arr := blk_arr_of b 0 (Some 40) k |} in
+  exists d, In ((1, None), BoDeliver d)
               (blk_srv_recv_run (fun _ => 0) 0 [] [rq b1 0; rq b2 1; rq b1 2]) /\
             d <> b1 /\ d <> b2.
 Proof. exact blk_srv_mix_without_rtag. Qed.
@@ -286,3 +286,16 @@ Theorem C09_lossless_example :
     = [BoContinue; BoContinue; BoContinue; BoDeliver body].
 Proof. vm_compute. split; reflexivity. Qed.
 Print Assumptions C09_lossless_example.
+
+(* the client-side transfer state (lg_xmit of an upload, lg_crcv of a download) is kept while
+   the transfer makes progress, however long the whole transfer takes *)
+Theorem C09_state_kept_while_progress : forall wait l last, blk_tev_paced wait last l ->
+  fst (blk_timed_run wait true last l) = true.
+Proof. exact blk_timed_kept. Qed.
+Print Assumptions C09_state_kept_while_progress.
+
+(* a timer that only counts from the creation of the state cuts a paced transfer off *)
+Theorem C09_state_norefresh_refuted :
+  exists l, blk_tev_paced 93 0 l /\ fst (blk_timed_run_norefresh 93 true 0 l) = false.
+Proof. exact blk_timed_norefresh_refuted. Qed.
+Print Assumptions C09_state_norefresh_refuted.
